@@ -41,6 +41,10 @@ pub fn show_path(p: &Path) -> String {
     use std::os::unix::ffi::OsStrExt;
     format!("s:{}", hex(p.as_os_str().as_bytes()))
 }
+pub fn show_comps(p: &Path) -> String {
+    use std::os::unix::ffi::OsStrExt;
+    format!("l:{}", p.components().map(|c| hex(c.as_os_str().as_bytes())).collect::<Vec<_>>().join(","))
+}
 pub fn show_bool(b: bool) -> String {
     format!("b:{}", if b { 1 } else { 0 })
 }
